@@ -82,10 +82,14 @@ def exc_class(e):
     class = slug of the raising source line [+ ':' + message class], stage)"""
     tb = traceback.extract_tb(e.__traceback__)
     where, line = None, ''
-    for fr in reversed(tb):
-        if fr.filename.startswith(REPO + os.sep):
-            where = f'{os.path.relpath(fr.filename, REPO)}:{fr.name}'
-            line = (fr.line or linecache.getline(fr.filename, fr.lineno) or '').strip()
+    for frame, lineno in reversed(list(traceback.walk_tb(e.__traceback__))):
+        fn = frame.f_code.co_filename
+        if fn.startswith(REPO + os.sep):
+            # qualified name: IfBlock.__init__ and SelectBlock.__init__ differ
+            qn = getattr(frame.f_code, 'co_qualname', frame.f_code.co_name)
+            qn = qn.replace('.<locals>', '')
+            where = f'{os.path.relpath(fn, REPO)}:{qn}'
+            line = (linecache.getline(fn, lineno) or '').strip()
             break
     # the steps before folding / code generation do not depend on the level
     # or the debug flag
